@@ -1907,6 +1907,18 @@ def gen_c19(seed, tier):
             sc.ctr_set_counter("s128", 0, sc.rb(17), 17)      # invalid IV length for both APIs: rejected, stream continues
             sc.ctr_encrypt("s128", 0, sc.rb(7))
         sc.ctr_cleanup("s128", 0)
+    # Arduino-only: setCounterSize(n) confines the increment to the low n bytes
+    for z, tw in ((1, 0), (3, 0), (2, 1)):
+        sc.reset("c19-ctrsize-%d-%d" % (z, tw))
+        sc.ctr_init("s128", 0)
+        (sc.ctr_set_tweaked_key if tw else sc.ctr_set_key)("s128", 0, sc.rb(z * 16))
+        for size in (16, 1, 2, 4, 8, 15, 0, 17, 3):
+            iv = sc.rb(16 - max(1, min(size, 16))) + b"\xff" * (max(1, min(size, 16)) - 1) + bytes([0xFE])
+            sc.ctr_set_counter("s128", 0, iv)
+            sc.op("ard_set_counter_size", k="s128", o=0, size=size)
+            sc.ctr_encrypt("s128", 0, sc.rb(5 * 16 + 3))      # the low part wraps, the prefix must not move
+            sc.ctr_encrypt("s128", 0, sc.rb(13))
+        sc.ctr_cleanup("s128", 0)
     return sc
 
 
@@ -1924,11 +1936,16 @@ def check_C19(work, tier, seed):
     lines = conform(work, ba, "C19", seed, sc.text(), out, module="ArduinoTrace")
     # cross-check: the C library on the very same scenario (minus Arduino-only calls)
     bc = build(work)
+    # (executions that use an Arduino-only feature have no C counterpart and are left out)
+    chead, cex = sc_executions(sc)
+    cex = [e for e in cex if not any(l.startswith("ard_set_counter_size") for l in e)]
     ctext = "\n".join(ln.replace(" viadec=0", "").replace(" viadec=1", "")
-                      for ln in sc.text().split("\n") if not ln.startswith("ard_clear")) + "\n"
+                      for ln in chead + [l for e in cex for l in e] if not ln.startswith("ard_clear")) + "\n"
     clines = run_drv(bc, ctext)
     out.events += len(clines)
-    alines = [ln for ln in lines if '"e":"ard_clear"' not in ln]
+    ah, aex = split_executions(lines)
+    alines = ah + [ln for ex in aex if not any('"e":"ard_set_counter_size"' in x for x in ex)
+                   for ln in ex if '"e":"ard_clear"' not in ln]
     ign = ("be", "psize", "cap", "na", "nf", "nz", "badfree", "lv", "stray", "ctxnull", "vtnull", "fail")
     h, diff = compare_axis(work, clines, alines, "arduino-vs-c", "C19", seed, out, ignore_keys=ign)
     if diff:
@@ -2017,6 +2034,7 @@ def gen_tool_cases(seed, tier):
                 dict(tool=tool, why="unknown option", args=B + ["-k", k, "-x", "@IN", "@OUT"]),
                 dict(tool=tool, why="empty key", args=B + ["-k", "", "@IN", "@OUT"]),
                 dict(tool=tool, why="input file does not exist", args=B + ["-k", k, "@IN", "@OUT"], noinput=True),
+                dict(tool=tool, why="output file cannot be created", args=B + ["-k", k, "@IN", "@OUT.d/x/out.bin"]),
             ]
             if tool != "ecb":
                 opt = "-c" if tool == "ctr" else "-t"
